@@ -58,6 +58,17 @@ pub fn gen_sparse(rng: &mut Rng, maxdim: usize) -> SparseMatrix {
     h
 }
 
+/// a token that is not a number: 1-40 characters drawn from ASCII letters / digits / signs and 2-, 3- and 4-byte UTF-8
+/// characters, so that a multi-byte character can straddle every byte offset (error messages that quote or cut the token)
+fn garbage(rng: &mut Rng) -> String {
+    let alphabet = ["a", "Z", "7", "0", "-", "+", ".", "_", "é", "ß", "٣", "€", "１", "字", "😀", "𝟙"];
+    let n = rng.range(1, 40);
+    let mut s = String::new();
+    for _ in 0..n { s.push_str(*rng.pick(&alphabet)); }
+    if s.parse::<usize>().is_ok() { s.push('x'); }
+    s
+}
+
 fn mutate(rng: &mut Rng, text: &str, nrows: usize) -> String {
     let mut lines: Vec<Vec<String>> = text.split('\n').map(|l| l.split(' ').map(|t| t.to_string()).collect()).collect();
     for _ in 0..rng.range(1, 3) {
@@ -79,7 +90,8 @@ fn mutate(rng: &mut Rng, text: &str, nrows: usize) -> String {
             4 => { if !lines[li].is_empty() { let t = rng.below(lines[li].len());
                      if let Ok(v) = lines[li][t].parse::<usize>() { lines[li][t] = v.saturating_sub(nrows.min(v)).to_string(); } } }
             5 => { if !lines[li].is_empty() { let t = rng.below(lines[li].len());
-                     lines[li][t] = rng.pick(&["x", "-1", "+3", "1.5", "", "18446744073709551616", "18446744073709551615", "0x1", "٣", "１"]).to_string(); } }
+                     if rng.chance(1, 2) { lines[li][t] = garbage(rng); } else
+                     { lines[li][t] = rng.pick(&["x", "-1", "+3", "1.5", "", "18446744073709551616", "18446744073709551615", "0x1", "٣", "１"]).to_string(); } } }
             6 => { lines.remove(li); if lines.is_empty() { lines.push(vec![]); } }
             7 => { let l = lines[li].clone(); lines.insert(li, l); }
             _ => { if !lines[li].is_empty() { let t = rng.below(lines[li].len());
@@ -101,7 +113,7 @@ fn soup(rng: &mut Rng) -> String {
         s.push_str(*rng.pick(&["\n", " ", "\n\n", " 3\n"]));
     }
     for _ in 0..n {
-        s.push_str(*rng.pick(&toks));
+        if rng.chance(1, 12) { s.push_str(&garbage(rng)); } else { s.push_str(*rng.pick(&toks)); }
         s.push_str(*rng.pick(&[" ", " ", "\n"]));
     }
     s
